@@ -218,6 +218,12 @@ def build_ext(r):
             out[new] = base[n]
         if how == 'extra':
             out['NOTE'] = ['x'] * len(base)
+        if how == 'other_shapes':
+            # the same rows under the shape names other tools use: an
+            # unrotated "box" that nevertheless carries a ROTANG value, ...
+            names_map = {'rotbox': 'box', 'ROTBOX': 'BOX'}
+            out['SHAPE'] = [names_map.get(str(x).strip(), str(x).strip())
+                            for x in base['SHAPE']]
         out.meta.update(base.meta)
         return out
     raise ValueError(t)
